@@ -54,6 +54,14 @@ def ioRes : Except Rbsp.IoKind (List UInt8) → String
   | .ok b => "ok:" ++ hexOf b
   | .error k => "err:" ++ ioKind k
 
+/-- drain: `fill_buf` / `consume(all)` until the end or an error; returns the reader, the bytes and the final status -/
+def drainAll : Nat → Rbsp.BR → List UInt8 → Rbsp.BR × List UInt8 × String
+  | 0, r, acc => (r, acc, "runaway")
+  | fuel+1, r, acc =>
+    match Rbsp.fillBuf r with
+    | (r', .error k) => (r', acc, ioKind k)
+    | (r', .ok buf) => if buf = [] then (r', acc, "end") else drainAll fuel (Rbsp.consume r' buf.length) (acc ++ buf)
+
 /-! ### rbsp: ops `f`, `c<k>` (k clipped to what the last fill showed and was not yet consumed), `r<n>` -/
 def rbsp (chunks : List (List UInt8)) (complete : Bool) (skip : Nat) (ops : List String) : String :=
   let r0 : Rbsp.BR := ⟨NalSrc.mkChunked chunks complete, if skip = 0 then .start else .skip skip, 0, 128⟩
@@ -69,6 +77,9 @@ def rbsp (chunks : List (List UInt8)) (complete : Bool) (skip : Nat) (ops : List
     | 'r' :: n =>
       let (r', res) := Rbsp.read r (String.ofList n).toNat!
       (r', (match res with | .ok b => avail - b.length | .error _ => avail), ioRes res :: outs)
+    | 'D' :: _ =>
+      let (r', got, status) := drainAll (Rbsp.fuelFor r) r []
+      (r', 0, ("D:" ++ hexOf got ++ ":" ++ status) :: outs)
     | _ => (r, avail, "bad" :: outs)) (r0, 0, [])
   " ".intercalate out.reverse
 
